@@ -70,20 +70,6 @@ MainEnv(tdef, l) ==
   IN [n \in {"k", "v", "t.k", "t.v", "input"} |->
         CASE n \in {"k", "t.k"} -> r[2] [] n \in {"v", "t.v"} -> r[3] [] OTHER -> TextV(LineText(l))]
 
-MergeEnv(env, s) ==        \* s = <<k, w>> of the joined side; a clashing name stays with the queried table
-  [n \in DOMAIN env \cup {"w", "u.k", "u.w"} |->
-     CASE n = "u.k" -> s[1] [] n \in {"w", "u.w"} -> s[2] [] OTHER -> env[n]]
-
-StarCols(q) == IF q.join = "none" THEN <<"k", "v">> ELSE <<"k", "v", "u.k", "w">>
-
-ColNames(q) ==
-  IF q.kind = "select"
-  THEN IF q.star THEN StarCols(q)
-       ELSE [i \in 1..Len(q.proj) |-> IF q.proj[i].as # "" THEN q.proj[i].as
-                                      ELSE IF q.proj[i].e.op = "col" THEN q.proj[i].e.name
-                                      ELSE "p" \o ToString(i - 1)]
-  ELSE [i \in 1..Len(q.items) |-> q.items[i].as]
-
 \* ------------------------------------------------------------------ variables
 VARIABLES tdef, q, files, jlines, mode, intr,      \* the environment's choices (fixed per behaviour)
           pc,                \* "loadjoin" | "read" | "final" | "done"
@@ -101,6 +87,24 @@ VARIABLES tdef, q, files, jlines, mode, intr,      \* the environment's choices 
           closed             \* Lazy only: the environment has finished writing the input
 
 cvars == <<tdef, q, files, jlines, mode, intr>>
+
+\* table variant "selfj": the table is joined with ITSELF (FROM t INNER JOIN t::'file' ON t.k = t.k).  Every joined column clashes with a queried one, so the joined
+\* row is addressable by the table-qualified names only (t.k, t.v: the joined row) and the plain names stay with the queried row (k, v, input)
+MergeEnv(env, s) ==        \* s = <<k, w>> of the joined side; a clashing name stays with the queried table
+  IF tdef = "selfj" THEN [n \in DOMAIN env |-> CASE n = "t.k" -> s[1] [] n = "t.v" -> s[2] [] OTHER -> env[n]]
+  ELSE [n \in DOMAIN env \cup {"w", "u.k", "u.w"} |->
+          CASE n = "u.k" -> s[1] [] n \in {"w", "u.w"} -> s[2] [] OTHER -> env[n]]
+
+StarCols(st) == IF st.join = "none" THEN <<"k", "v">> ELSE IF tdef = "selfj" THEN <<"k", "v", "t.k", "t.v">> ELSE <<"k", "v", "u.k", "w">>
+
+ColNames(st) ==
+  IF st.kind = "select"
+  THEN IF st.star THEN StarCols(st)
+       ELSE [i \in 1..Len(st.proj) |-> IF st.proj[i].as # "" THEN st.proj[i].as
+                                      ELSE IF st.proj[i].e.op = "col" THEN st.proj[i].e.name
+                                      ELSE "p" \o ToString(i - 1)]
+  ELSE [i \in 1..Len(st.items) |-> st.items[i].as]
+
 vars == <<cvars, pc, running, ji, jidx, fi, li, hooks, consumed, seen, nout, groups, printed, steps, status, closed>>
 
 \* u(k, w): same line format, column v is called w.  Table variant "numjoin": w is REAL and the join is ON t.v = u.w
